@@ -128,16 +128,21 @@ type okMerge struct{}
 
 func (okMerge) NotifyMerge([]*serf.Member) error { return nil }
 
+type openQuery struct {
+	lt uint64
+	id uint32
+}
+
 type env struct {
 	dir     string
 	cfg     int
 	net     *quiet.Net
 	n       *quiet.Node
 	peer    *quiet.Transport
-	ctr     uint64 // unique ids / names / Lamport times
-	qLTime  uint64 // the running query (resp family)
+	ctr     uint64               // unique ids / names / Lamport times
+	queries map[string]openQuery // open queries of the node by context (resp family)
+	qLTime  uint64               // the query of the context used last
 	qID     uint32
-	haveQ   bool
 	nProbes int
 }
 
@@ -261,7 +266,7 @@ func (e *env) fields(kind string) []fdef {
 			{"Flags", "uint", u(1)}, {"RelayFactor", "uint", u(0)}, {"Timeout", "uint", u(uint64(10 * time.Second))},
 			{"Name", "str", s("plainq")}, {"Payload", "bytes", b([]byte("qp"))}}
 	case "resp":
-		e.ensureQuery()
+		e.ensureQuery("ack")
 		return []fdef{{"LTime", "uint", u(e.qLTime)}, {"ID", "uint", u(uint64(e.qID))}, {"From", "str", s(fmt.Sprintf("from-%d", lt))},
 			{"Flags", "uint", u(0)}, {"Payload", "bytes", b([]byte("answer"))}}
 	case "pushpull":
@@ -464,33 +469,71 @@ func devOf(st h.Step) map[int]string {
 var typeBytes = map[string]int{"leave": 0, "join": 1, "pushpull": 2, "user": 3, "query": 4, "resp": 5, "conflictresp": 6,
 	"keyreq": 7, "keyresp": 8, "relay": 9, "unknown10": 10, "unknown255": 255}
 
-// ensureQuery: a query of our own is running on the node, so that responses reach handleQueryResponse's depths
-func (e *env) ensureQuery() {
-	if e.haveQ {
+// ensureQuery: the node has an OPEN query of its own of the given context, so that replies reach the depths of
+// handleQueryResponse (sendAck / sendResponse, the key manager's and the conflict resolver's reply loops):
+//
+//	ack      Serf.Query with RequestAck        noack   Serf.Query without RequestAck (no ack channel, no ack set)
+//	closed   Serf.Query, then Close            key     KeyManager.ListKeys in flight (internal _serf_list-keys)
+//	conflict name conflict resolution in flight (internal _serf_conflict, started by NotifyConflict)
+func (e *env) ensureQuery(ctx string) {
+	if e.queries == nil {
+		e.queries = map[string]openQuery{}
+	}
+	if q, ok := e.queries[ctx]; ok {
+		e.qLTime, e.qID = q.lt, q.id
 		return
 	}
 	e.n.Drain()
-	_, err := e.n.Serf.Query("verif-running", []byte("x"), &serf.QueryParam{RequestAck: true, Timeout: time.Hour})
-	if err != nil {
-		h.Die("cannot start a query: %v", err)
+	name := "verif-open-" + ctx
+	switch ctx {
+	case "ack", "noack", "closed":
+		qr, err := e.n.Serf.Query(name, []byte("x"), &serf.QueryParam{RequestAck: ctx == "ack", Timeout: time.Hour})
+		if err != nil {
+			h.Die("cannot start a query: %v", err)
+		}
+		if ctx == "closed" {
+			qr.Close()
+		}
+	case "key":
+		name = "_serf_list-keys"
+		go func() {
+			defer func() { recover() }()
+			e.n.Serf.KeyManager().ListKeys()
+		}()
+	case "conflict":
+		name = "_serf_conflict"
+		e.n.Conf.MemberlistConfig.Conflict.NotifyConflict(e.n.MLNode(e.n.Name, e.n.Tr, nil), e.n.MLNode(e.n.Name, e.peer, nil))
+	default:
+		h.Die("query context %q", ctx)
 	}
-	for _, b := range e.n.Drain() {
-		if len(b) > 0 && b[0] == quiet.TQuery {
-			var q quiet.MsgQuery
-			if quiet.Decode(b, &q) == nil && q.Name == "verif-running" {
-				e.qLTime, e.qID, e.haveQ = q.LTime, q.ID, true
+	// the query shows up in the node's broadcast queue (bounded polling: the internal ones start in goroutines)
+	deadline := time.Now().Add(10 * time.Second)
+	for {
+		for _, b := range e.n.Drain() {
+			if len(b) > 0 && b[0] == quiet.TQuery {
+				var q quiet.MsgQuery
+				if quiet.Decode(b, &q) == nil && q.Name == name {
+					e.queries[ctx] = openQuery{q.LTime, q.ID}
+					e.qLTime, e.qID = q.LTime, q.ID
+					return
+				}
 			}
 		}
-	}
-	if !e.haveQ {
-		h.Die("did not see our own query in the broadcast queue")
+		if time.Now().After(deadline) {
+			h.Die("did not see the node's own %s query in its broadcast queue", ctx)
+		}
+		time.Sleep(200 * time.Microsecond)
 	}
 }
 
 func (e *env) respMsg(lt uint64, id uint32, from string, flags uint32, payload []byte, nilPayload bool) []byte {
 	m := &mp{}
 	m.raw(quiet.TQueryResponse)
-	m.mapn(5)
+	if payload == nil && !nilPayload { // Payload field absent
+		m.mapn(4)
+	} else {
+		m.mapn(5)
+	}
 	m.str("LTime")
 	m.uintv(lt)
 	m.str("ID")
@@ -499,6 +542,9 @@ func (e *env) respMsg(lt uint64, id uint32, from string, flags uint32, payload [
 	m.str(from)
 	m.str("Flags")
 	m.uintv(uint64(flags))
+	if payload == nil && !nilPayload {
+		return m.b
+	}
 	m.str("Payload")
 	if nilPayload {
 		m.nilv()
@@ -901,7 +947,7 @@ func (e *env) feed(st h.Step, obs *shapeObs) {
 		d.NotifyMsg(e.relayMsg(c1, st.Str("c2")))
 		obs.N = 1
 	case "resp":
-		e.ensureQuery()
+		e.ensureQuery(st.Str("kind"))
 		lt, id := e.qLTime, e.qID
 		switch st.Str("c3") {
 		case "wrongid":
@@ -912,6 +958,8 @@ func (e *env) feed(st h.Step, obs *shapeObs) {
 		var pl []byte
 		nilp := false
 		switch st.Str("c1") {
+		case "absent":
+			pl = nil
 		case "empty":
 			pl = []byte{}
 		case "nil":
